@@ -35,9 +35,10 @@ type c04Tok struct {
 }
 
 type c04Model struct {
-	v     *vCore
-	toks  []*c04Tok
-	steps []string
+	v      *vCore
+	toks   []*c04Tok
+	steps  []string
+	nextID string // when set, the next create asks for this token id
 }
 
 func (m *c04Model) children(t *c04Tok) []*c04Tok {
@@ -98,6 +99,10 @@ func (m *c04Model) create(parent *c04Tok, parentID string, orphan bool, nsPath s
 	data := map[string]any{"policies": []string{"c04"}, "ttl": "1h"}
 	if orphan {
 		data["no_parent"] = true
+	}
+	if m.nextID != "" {
+		data["id"] = m.nextID // caller-chosen id (root / sudo callers only)
+		m.nextID = ""
 	}
 	resp, err := v.Do(vReq{Tag: tag, Op: logical.UpdateOperation, Path: "auth/token/create", Token: parentID, Data: data, NS: nsPath})
 	if !vOK(resp, err) || resp == nil || resp.Auth == nil {
